@@ -35,23 +35,28 @@ def check(model, rep):
     bT, tT, bJ, tJ, bL, tL = k.params
     rep.rule('R09.1', 'SPIKinSpace: bottom/top statements symmetric, own transform on own joint column i, length i = norm(top_i - bottom_i), six legs')
     loops = [n for n in k.body() if isinstance(n, ast.For)]
-    if len(loops) != 1 or not isinstance(loops[0].target, ast.Name):
+    if not loops or not all(isinstance(l_.target, ast.Name) for l_ in loops):
         raise AnalysisError('SPIKinSpace: leg loop not recognised')
     lp = loops[0]
-    i = lp.target.id
     from ..engine.inline import norm_text as _nt
-    it_txt = _nt(Inliner(k).expand(lp.iter))          # a named leg count (num_legs = 6) is the constant it stands for
-    rep.ob('R09.1', k, 'for %s in range(6)' % i, it_txt in ('range(6)', 'range(0,6)'), 'leg loop ranges over %s' % it_txt, line=lp.lineno)
+    for l_ in loops:
+        it_txt = _nt(Inliner(k).expand(l_.iter))          # a named leg count (num_legs = 6) is the constant it stands for
+        rep.ob('R09.1', k, 'for %s in range(6)' % l_.target.id, it_txt in ('range(6)', 'range(0,6)'), 'leg loop ranges over %s' % it_txt, line=l_.lineno)
     from ..engine import tv as _tv
-    ok, why = _tv.matches_spec(model, FHP, 'SPIKinSpace', '''
-        def SPIKinSpace(bottom_T, top_T, bottom_local, top_local, bottom_space, top_space):
-            lengths = np.zeros((6, 1))
-            for i in range(6):
-                bottom_space[0:3, i] = TrVec(bottom_T, bottom_local[0:3, i])
-                top_space[0:3, i] = TrVec(top_T, top_local[0:3, i])
-                lengths[i] = Norm(top_space[0:3, i] - bottom_space[0:3, i])
-            return lengths, bottom_space, top_space
-        ''')
+    # the definition, with the joints transformed and the lengths taken in one pass or in two, the length column indexed [i] or [i, 0]
+    specs = []
+    for two_pass in (False, True):
+        for idx in ('i', 'i, 0'):
+            body = ['bottom_space[0:3, i] = TrVec(bottom_T, bottom_local[0:3, i])', 'top_space[0:3, i] = TrVec(top_T, top_local[0:3, i])']
+            length = 'lengths[%s] = Norm(top_space[0:3, i] - bottom_space[0:3, i])' % idx
+            head = 'def SPIKinSpace(bottom_T, top_T, bottom_local, top_local, bottom_space, top_space):\n    lengths = np.zeros((6, 1))\n'
+            if two_pass:
+                txt = head + '    for i in range(6):\n' + ''.join('        %s\n' % b_ for b_ in body) + '    for i in range(6):\n        %s\n' % length
+            else:
+                txt = head + '    for i in range(6):\n' + ''.join('        %s\n' % b_ for b_ in body) + '        %s\n' % length
+            specs.append(txt + '    return lengths, bottom_space, top_space\n')
+    res_k = [_tv.matches_spec(model, FHP, 'SPIKinSpace', sp_) for sp_ in specs]
+    ok, why = any(r_[0] for r_ in res_k), res_k[0][1]
     rep.ob('R09.1', k, 'leg i: bottom_i = T_b . b_i, top_i = T_t . t_i (own transform on own joint column), length_i = |top_i - bottom_i|; returns (lengths, bottom, top)',
            ok, 'SPIKinSpace is not the leg geometry of the definition: ' + why, line=lp.lineno)
     tvf = model.func(FHP, 'TrVec')
@@ -181,7 +186,8 @@ def check(model, rep):
     rep.count('fields caching a function of the plate-fixed joints', len(an.caches))
     rep.floor('R09.2', 'cache fields of the plate-fixed joints', len(an.caches), 2)
     rep.note('caches of the plate-fixed joint tables: %s' % {k: sorted(v) for k, v in sorted(an.caches.items())})
-    init = sp.methods['__init__']
+    from .common_ops import flat_method as _flat_m
+    init = _flat_m(sp, '__init__')          # the capture of the FK tables may sit in a private helper shared with spinCustom
     tabs = {src(n.targets[0]): src(n.value).replace(' ', '') for n in walk_own(init.node) if isinstance(n, ast.Assign) and 'joints_init' in src(n.targets[0])}
     ok = tabs.get('self._bottom_joints_init', '').startswith('self._bottom_joints_local') and tabs.get('self._top_joints_init', '').startswith('self._top_joints_local') \
         and all(v.endswith('.transpose()') or v.endswith('.T') for v in tabs.values())
